@@ -1,5 +1,5 @@
 """C05 - no valid schedule is lost: infeasibility verdicts are truthful."""
-from .. import cands, engine, probe, spec as S
+from .. import cands, engine, known, probe, spec as S
 from ..runner import run_hypothesis
 
 ID = "C05"
@@ -25,7 +25,7 @@ PROFILES = [
 
 def prop(ctx, case):
     out = cands.completeness_case(ctx, case, "C05.completeness")
-    if not out or not out["n_valid"]:
+    if not out or not (out["n_valid"] or out.get("n_valid_any")):
         return
     # verdict half: the public solve() on a fresh problem must find a schedule
     if case["seed"] % 3 == 0:
@@ -42,7 +42,7 @@ def prop(ctx, case):
             ctx.violation(
                 {"check": "C05.verdict", "rule": "no_solution_reported_but_valid_schedule_exists", "spec": case["spec"], "seed": case["seed"],
                  "probe": {"kind": "public_solve", "valid_candidate": out["valid"][0] if out["valid"] else None},
-                 "observed": "solve() returned False", "signature": {"rule": "false_unsat", "classes": engine.classes_of(case["spec"])}}
+                 "observed": "solve() returned False", "signature": {"rule": "false_unsat", "classes": engine.classes_of(case["spec"]), **known.features(case["spec"])}}
             )
         else:
             ctx.event("public_solve_found_solution")
